@@ -318,9 +318,10 @@ def check_wiring(ctx, w):
     henv = expr.FEnv(h.node, params=('CU',))
     rp = [([expr.CP(expr.cond_str(t, henv), pol) for t, pol in c], expr.nfs(r, henv)) for c, r, p in paths.returns_with_conds(h.node)]
     src_h = U(h.node)
-    ok = "if 'DW_AT_stmt_list' in top_DIE.attributes:" in src_h and \
-        "return self._parse_line_program_at_offset(top_DIE.attributes['DW_AT_stmt_list'].value, CU.structs)" in src_h and \
-        sorted(r[1] for r in rp) == ['None', '_parse_line_program_at_offset(self,value,structs)']
+    has = expr.spec_cond("'DW_AT_stmt_list' in CU.get_top_DIE().attributes")      # top_DIE is a single-assignment local: inlined by the normal form
+    want_rows = [([(has, True)], '_parse_line_program_at_offset(self,value,structs)'), ([(has, False)], 'None')]
+    ok = expr.rows(rp) == expr.rows(want_rows) and \
+        "self._parse_line_program_at_offset(top_DIE.attributes['DW_AT_stmt_list'].value, CU.structs)" in src_h
     ctx.ob('W-WIRE', h.construct, 'program at the top DIE\'s DW_AT_stmt_list with the unit\'s structs', ok, got=rp)
     ctx.ob('W-WIRE', h.construct, 'top DIE of the given unit', 'top_DIE = CU.get_top_DIE()' in U(h.node))
     for q, sec in (('DWARFInfo.get_string_from_table', 'debug_str_sec'), ('DWARFInfo.get_string_from_linetable', 'debug_line_str_sec')):
